@@ -11,7 +11,7 @@ LEVEL = "exploration"
 RULE = (
     "operation sequences over {value, error, call, is_computed, set_value, set_error, reset_unsafe, subscribe a "
     "well-behaved callback, subscribe a raising callback} applied to every future kind {Future(ok provider), "
-    "Future(raising provider), ConstFuture, ErrorFuture, AsyncTask returning / raising / blocked on a batch item, "
+    "Future(raising provider), Future(provider raising FutureIsAlreadyComputed about another future), ConstFuture, ErrorFuture, AsyncTask returning / raising / blocked on a batch item, "
     "batch with succeeding / raising flush, batch item set / errored / left unset}: ALL sequences up to length 4 "
     "(thorough: 5) plus seeded random sequences up to length 15, on both builds. Each operation's result or exception "
     "(type, and identity of error instances) is compared with an explicit reference state machine {uncomputed, value, "
@@ -29,6 +29,7 @@ OPS = ["value", "error", "call", "is_computed", "set_value", "set_error", "reset
 KINDS = [
     "future_ok",
     "future_raise",
+    "future_raise_faic",
     "const",
     "errfut",
     "task_ok",
@@ -83,6 +84,8 @@ class Model(object):
             return ("val", ("tok", n))
         if k == "future_raise":
             return ("exc", ("UserErr", ("prov", n)))
+        if k == "future_raise_faic":
+            return ("exc", "FutureIsAlreadyComputed")
         if k == "task_ok":
             return ("val", ("task", 7))
         if k == "task_raise":
@@ -130,6 +133,13 @@ def make_object(kind, env):
         def prov():
             env["computes"] += 1
             raise UserErr(("prov", env["computes"]))
+
+        return Future(prov)
+    if kind == "future_raise_faic":
+        def prov():
+            # the provider trips over ANOTHER future that is already complete
+            env["computes"] += 1
+            ConstFuture(1).set_value(2)
 
         return Future(prov)
     if kind == "const":
@@ -221,6 +231,8 @@ def C10Item(rt, mode):
 
 
 def desc(x):
+    if type(x).__name__ == "FutureIsAlreadyComputed":
+        return "FutureIsAlreadyComputed"
     if isinstance(x, BaseException):
         return exc_desc(x)
     return x
@@ -251,7 +263,7 @@ def run_sequence(kind, seq):
                 if not comp:
                     out = ("uncomputed",)
                 elif e is not None:
-                    out = ("exc", exc_desc(e))
+                    out = ("exc", desc(e))
                 else:
                     out = ("val", f.value())
             except BaseException as ex:  # the callback itself must be able to look
@@ -261,6 +273,15 @@ def run_sequence(kind, seq):
                 raise UserErr(("subscriber", sid))
 
         return cb
+
+    faic_seen = []
+
+    def check_identity_faic(e):
+        # a stored FutureIsAlreadyComputed outcome must keep being the same object
+        if kind == "future_raise_faic" and m.computed and m.out and m.out[0] == "exc":
+            if faic_seen and faic_seen[0] is not e:
+                viol.append(("error-instance-changed", "FutureIsAlreadyComputed"))
+            faic_seen.append(e)
 
     def check_identity(e):
         d = exc_desc(e)
@@ -279,7 +300,7 @@ def run_sequence(kind, seq):
                 if not m.can_compute():
                     break  # unmodelled: re-running a consumed computation after reset_unsafe()
                 out = m.natural()
-                if kind == "future_raise":
+                if kind in ("future_raise", "future_raise_faic"):
                     m.complete(out)
                     # the triggering call may raise (value always raises; error() may raise or return)
                     exp = ("raise", out[1])
@@ -314,6 +335,8 @@ def run_sequence(kind, seq):
             m.computed = False
             m.out = None
             m.was_reset = True
+            del faic_seen[:]
+            err_instances.clear()
             exp = ("ret", None)
         elif op in ("sub_ok", "sub_raise"):
             sid = next(sub_ids)
@@ -342,7 +365,9 @@ def run_sequence(kind, seq):
             else:
                 obj.on_computed.subscribe(mk_sub(sid, op == "sub_raise"))
                 got = ("ret", None)
-        except FutureIsAlreadyComputed:
+        except FutureIsAlreadyComputed as e:
+            if op in ("value", "call"):
+                check_identity_faic(e)
             got = ("raise", "FutureIsAlreadyComputed")
         except BaseException as e:
             check_identity(e)
